@@ -92,6 +92,58 @@ class ServerCodec(SoupCodec):
         return super().number(msg)
 
 
+class FixCodec:
+    """frames for a FIX *client* session (`fix.Fix44Session`; peer = server), over the test-suite dictionary of the repository under test:
+    `('msg', 0)` = the logon response (type L), other numbers = a `Nope` message carrying the number in Username, `hb` = Heartbeat,
+    `logout` = a message of type 5, `bad` = a frame whose BodyLength is not a number (the reader notices when the `35=` tag arrives,
+    i.e. with the last byte of these bytes — so a segmentation never splits the moment of detection from the frame)"""
+    kind = 'fix-client'
+    SOH = b'\x01'
+
+    def env(self):
+        import login_app          # one copy of the dictionary per process (message classes register globally by type)
+        return login_app.fixenv()
+
+    def _frame(self, mtype, user=None, seq=1):
+        soh = self.SOH
+        body = b'35=' + mtype + soh + b'49=SERVER' + soh + b'56=CLIENT' + soh + b'34=' + str(seq).encode() + soh + b'52=20240101-00:00:00' + soh
+        if user is not None:
+            body += b'553=' + str(user).encode() + soh
+        data = b'8=FIX.4.4' + soh + b'9=' + str(len(body)).encode() + soh + body
+        return data + b'10=' + str(sum(data) % 256).rjust(3, '0').encode() + soh
+
+    def frame(self, tok, rng):
+        self.env()
+        if tok == 'hb':
+            return self._frame(b'0')
+        if tok == 'logout':
+            return self._frame(b'5')
+        if tok == 'bad':
+            return b'8=FIX.4.4\x019=zz\x0135='
+        n = tok[1]
+        if n == 0:
+            return self._frame(b'L', 'u')
+        return self._frame(b'N', n)
+
+    def number(self, msg):
+        fm = self.env()['fm']
+        if isinstance(msg, fm.Login):
+            return 0
+        try:
+            return int(msg.Username)
+        except Exception:   # noqa
+            return -1
+
+    def login_msg(self):
+        env = self.env()
+        fix, fm = env['fix'], env['fm']
+        return fm.Login({fix.MessageSegments.HEADER: {'SenderCompID': 'CLIENT', 'TargetCompID': 'SERVER', 'MsgSeqNum': 1},
+                         fix.MessageSegments.BODY: {'Username': 'u'}})
+
+    def app_msg(self):
+        return self.env()['fm'].Nope()
+
+
 # ------------------------------------------------------------------ step logging
 class Recorder:
     def __init__(self):
@@ -167,7 +219,7 @@ class Scenario:
         self.rng = random.Random(seed)
         self.settle = settle
         self.hb = hb
-        self.codec = ServerCodec() if cfg['kind'] == 'soup-server' else SoupCodec()
+        self.codec = ServerCodec() if cfg['kind'] == 'soup-server' else FixCodec() if cfg['kind'] == 'fix-client' else SoupCodec()
 
     # callbacks handed to the library
     def _beh_of(self, n):
@@ -262,6 +314,32 @@ class Scenario:
             s = Client(on_msg_coro=on_msg, on_close_coro=on_close,
                                        client_heartbeat_interval=ci, server_heartbeat_interval=si,
                                        dispatch_on_connect=cfg.get('dispatch_on_connect', False))
+        elif cfg['kind'] == 'fix-client':
+            from nasdaq_protocols.fix import session as fix_session
+            rec, codec = self.rec, self.codec
+            codec.env()
+
+            class FixClient(fix_session.Fix44Session):
+                """observation only: which message `login()` consumed as its reply"""
+                in_login = False
+
+                async def login(self, msg):
+                    FixClient.in_login = True
+                    try:
+                        return await super().login(msg)
+                    finally:
+                        FixClient.in_login = False
+
+                async def receive_msg(self):
+                    was_login = FixClient.in_login
+                    m = await super().receive_msg()
+                    if was_login:
+                        FixClient.in_login = False
+                        rec.obs.append(['loginReply', codec.number(m)])
+                    return m
+            s = FixClient(on_msg_coro=on_msg, on_close_coro=on_close,
+                          client_heartbeat_interval=ci, server_heartbeat_interval=si,
+                          dispatch_on_connect=cfg.get('dispatch_on_connect', False))
         else:
             raise ValueError(cfg['kind'])
         return s
@@ -296,7 +374,10 @@ class Scenario:
                 elif what == 'login':
                     from nasdaq_protocols import soup
                     try:
-                        await s.login(soup.LoginRequest('u', 'p', 's', '1'))
+                        await s.login(self.codec.login_msg() if self.cfg['kind'] == 'fix-client' else soup.LoginRequest('u', 'p', 's', '1'))
+                        # C11 "returns an active session": the state at the very moment login() returns (not a model observable)
+                        result['login_active'] = bool(s.is_active())
+                        result['login_closed'] = bool(s.is_closed())
                         result['t_login_ok'] = asyncio.get_running_loop().time()
                         r = 'ok'
                     except Exception as e:   # noqa
@@ -337,7 +418,37 @@ class Scenario:
                 elif k == 'logout':
                     ext('logout', s.logout)
                 elif k == 'send':
-                    ext('send', lambda: s.send_debug('x'))
+                    if self.cfg['kind'] == 'fix-client':
+                        ext('send', lambda: s.send_msg(self.codec.app_msg()))
+                    else:
+                        ext('send', lambda: s.send_debug('x'))
+                elif k == 'await_put':
+                    # ('await_put', 'before'|'after'): wait until the reader next hands a message to the session's queue and go on in
+                    # the loop turn that follows that reader step — ahead of ('before') or behind ('after') whatever the hand-over
+                    # woke (the receive helper task).  What the script does next (`turns k`, then `eof` / `cancel` / …) thereby lands
+                    # a chosen number of loop turns after the hand-over: reader -> queue -> helper -> login() / receive_msg().
+                    # Gives up after 20 reader polls if nothing is handed over (truncated reply, heartbeat only).
+                    rd = getattr(s, '_reader', None)
+                    if rd is not None and not s.is_closed():
+                        fut = asyncio.get_running_loop().create_future()
+                        orig = rd.on_msg_coro
+                        before = item[1] == 'before'
+
+                        async def hooked(m, fut=fut, orig=orig, rd=rd, before=before):
+                            rd.on_msg_coro = orig
+                            if before and not fut.done():
+                                fut.set_result(None)
+                            try:
+                                return await orig(m)
+                            finally:
+                                if not fut.done():
+                                    fut.set_result(None)
+                        rd.on_msg_coro = hooked
+                        try:
+                            await asyncio.wait_for(fut, 0.002)
+                        except asyncio.TimeoutError:
+                            if rd.on_msg_coro is hooked:
+                                rd.on_msg_coro = orig
                 elif k in ('recv', 'login', 'recvnw') and any(not t.done() for t in receivers):
                     continue      # one receive at a time (two concurrent receives are API misuse, outside the model)
                 elif k == 'startdisp':
@@ -450,6 +561,9 @@ class Scenario:
 
 
 def classify_write(data):
+    if bytes(data[:2]) == b'8=':      # FIX
+        d = bytes(data)
+        return 'login' if b'\x0135=L\x01' in d else 'hb' if b'\x0135=0\x01' in d else 'logout' if b'\x0135=5\x01' in d else 'data'
     t = bytes(data[2:3])
     return {b'L': 'login', b'R': 'hb', b'H': 'hb', b'O': 'logout', b'Z': 'logout', b'A': 'reply', b'J': 'reply'}.get(t, 'data')
 
